@@ -835,6 +835,27 @@ func runUnpackCase(cfg *Config, rep *Report, idx int, c *UCase, arena string, re
 			outside = append(outside, "created:"+p)
 		}
 	}
+	// with an allow-list the caller has opted into links leading to the listed places; what an archive
+	// does through such a link is outside C01's claim (the allow-listed places themselves may change)
+	if len(c.Allow) > 0 {
+		var kept []string
+		for _, o := range outside {
+			p := filepath.Join(arena, o[strings.Index(o, ":")+1:])
+			ok := false
+			for _, a := range c.Allow {
+				if !strings.HasPrefix(a, "/") {
+					a = filepath.Join(dst, a)
+				}
+				if within(filepath.Clean(a), p) || within(p, filepath.Clean(a)) {
+					ok = true
+				}
+			}
+			if !ok {
+				kept = append(kept, o)
+			}
+		}
+		outside = kept
+	}
 	if len(outside) > 0 {
 		sort.Strings(outside)
 		rep.AddOracle(OracleFailure{Property: "C01", Lane: "unpack", What: "outside dst: " + strings.Join(outside, ", ") + " (result " + out.class + ")",
